@@ -208,21 +208,22 @@ int str_nocase_equal(const char* e, const char* a) { if (!e && !a) return P_TRUE
 // "actual contains expected". Two NULLs: not asserted (nothing is contained in "no string"; the library lets it pass)
 int str_contains(const char* e, const char* a) { if (!e && !a) return P_ANY; if (!e || !a) return P_FALSE; return strstr(a, e) != NULL; }
 int str_nocase_contains(const char* e, const char* a) { if (!e && !a) return P_ANY; if (!e || !a) return P_FALSE; return strstr(fold(a).c_str(), fold(e).c_str()) != NULL; }
-// length-limited: one NULL and length 0 is not asserted ("NULL equals only NULL" versus "the first 0 characters agree")
-int str_n_equal(const char* e, const char* a, size_t n) { if (!e && !a) return P_TRUE; if (!e || !a) return n == 0 ? P_ANY : P_FALSE; return strncmp(e, a, n) == 0; }
+// length-limited: "NULL strings ... equal only NULL" holds at every length, 0 included (the zero-length exemption of the
+// statement is for blocks only)
+int str_n_equal(const char* e, const char* a, size_t n) { if (!e && !a) return P_TRUE; if (!e || !a) return P_FALSE; return strncmp(e, a, n) == 0; }
 int mem_equal(Buf e, Buf a, size_t n) { if (n == 0) return P_TRUE; if (!e.p && !a.p) return P_TRUE; if (!e.p || !a.p) return P_FALSE; return memcmp(e.p, a.p, n) == 0; }
 bool mem_skip(Buf e, Buf a, size_t n) { return (e.p && e.len < n) || (a.p && a.len < n); }
 
 // doubles with tolerance. NaN operand: never equal. Tolerance NaN or negative: outside the statement (not asserted).
 // same value (== covers +0/-0 and the same infinity): equal. Otherwise equal iff |e-a| <= t, where |e-a| is taken
 // both exactly (round-up of the difference decides it, since t is a double) and as the rounded double difference;
-// where the two readings differ the verdict is not asserted. Infinite tolerance with an infinite operand: not asserted.
+// where the two readings differ the verdict is not asserted. Tolerance +inf: everything that is not NaN is equal.
 int dbl_equal(double e, double a, double t) {
     if (std::isnan(e) || std::isnan(a)) return P_FALSE;
     if (std::isnan(t) || (t < 0)) return P_ANY;
     if (e == a) return P_TRUE;
-    if (std::isinf(e) || std::isinf(a)) return std::isinf(t) ? P_ANY : P_FALSE;
-    if (std::isinf(t)) return P_TRUE;
+    if (std::isinf(t)) return P_TRUE;                          // +inf is a non-negative tolerance: every difference, an infinite one too, is "no more than" it
+    if (std::isinf(e) || std::isinf(a)) return P_FALSE;        // different values, infinitely far apart, finite tolerance
     volatile double hi_v = e > a ? e : a, lo_v = e > a ? a : e, rn, up;
     int old = fegetround();
     fesetround(FE_TONEAREST); rn = hi_v - lo_v;
@@ -465,7 +466,7 @@ static void run_tier(const bool T, const std::string sfx) {
         add3<double, double, double>(s, "CHECK_EQUAL_C_REAL", D, D, TOL, c03c_real, dbl_equal);
         add3<double, double, double>(s, "CHECK_EQUAL_C_REAL_TEXT", D, D, TOL, c03c_real_text, dbl_equal);
         add2<double, double>(s, "CHECK_EQUAL<double>", D, D, F2(double, double, CHECK_EQUAL(e, a)), [](double e, double a) { return (int)(e == a); });
-        run_section(s, vf::fmt("operands over %zu doubles {+-0, +-denorm_min, +-DBL_MIN, 0.5, 1-eps/2, 1, 1+eps, 1.5, 2, 3, -1, -(1+eps), DBL_MAX and its predecessor, -DBL_MAX, +-inf, NaN%s} squared x %zu tolerances {+-0, denorm_min, eps/2, eps, 0.5, 1, 2, DBL_MAX, +inf, NaN, -1%s}; verdict not asserted for NaN/negative tolerance, for infinite tolerance with an infinite operand, and where the exact and the rounded difference disagree about <= tolerance",
+        run_section(s, vf::fmt("operands over %zu doubles {+-0, +-denorm_min, +-DBL_MIN, 0.5, 1-eps/2, 1, 1+eps, 1.5, 2, 3, -1, -(1+eps), DBL_MAX and its predecessor, -DBL_MAX, +-inf, NaN%s} squared x %zu tolerances {+-0, denorm_min, eps/2, eps, 0.5, 1, 2, DBL_MAX, +inf, NaN, -1%s}; verdict not asserted for NaN/negative tolerance and where the exact and the rounded difference disagree about <= tolerance",
                                D.size(), T ? ", ..." : "", TOL.size(), T ? ", ..." : ""));
     }
 
@@ -528,7 +529,7 @@ static void run_tier(const bool T, const std::string sfx) {
             std::string base; for (int i = 0; i < n; i++) base += "abAB"[i % 4];
             std::vector<std::string> v; v.push_back(base); v.push_back(base.substr(0, n - 1)); v.push_back(base.substr(1)); v.push_back(base + "z");
             for (int i = 0; i < n; i++) { std::string x = base; x[i] = 'z'; v.push_back(x); x = base; x[i] = (char)(x[i] ^ 0x20); v.push_back(x); }
-            std::vector<const char*> se, sa;
+            std::vector<const char*> se(1, (const char*)0), sa(1, (const char*)0);
             for (auto& x : v) { se.push_back(heap_str(x)); sa.push_back(heap_str(x)); }
             std::vector<size_t> lens = {0, 1, (size_t)n - 1, (size_t)n, (size_t)n + 1, (size_t)-1};
             std::string t = vf::fmt("<n=%d>", n); nlist += vf::fmt("%s%d", nlist.empty() ? "" : ",", n);
@@ -546,7 +547,7 @@ static void run_tier(const bool T, const std::string sfx) {
             add3<Buf, Buf, size_t>(s, "MEMCMP_EQUAL" + t, be, ba, sizes, F3(Buf, Buf, size_t, MEMCMP_EQUAL(e.p, a.p, z)), mem_equal, mem_skip);
             add3<Buf, Buf, size_t>(s, "CHECK_EQUAL_C_MEMCMP" + t, be, ba, sizes, F3(Buf, Buf, size_t, c03c_memcmp(e.p, a.p, z)), mem_equal, mem_skip);
         }
-        run_section(s, "for each length n in {" + nlist + "}: both operands over the base string (abAB repeated, n characters), the base without its last / without its first character, the base plus one character, and the base with the character at each position replaced / case-flipped (2n+4 strings, all pairs, two pools); STRNCMP lengths {0,1,n-1,n,n+1,SIZE_MAX}; blocks: the n-byte base block and the base with one byte changed at each position, all pairs x sizes {0,1,n-1,n}");
+        run_section(s, "for each length n in {" + nlist + "}: both operands over the base string (abAB repeated, n characters), the base without its last / without its first character, the base plus one character, and the base with the character at each position replaced / case-flipped (NULL and 2n+4 strings, all pairs, two pools); STRNCMP lengths {0,1,n-1,n,n+1,SIZE_MAX}; blocks: the n-byte base block and the base with one byte changed at each position, all pairs x sizes {0,1,n-1,n}");
     }
 
     // ------------------------------------------------------------ memory blocks
